@@ -1,10 +1,10 @@
 package scen
 
 import (
-	"math/rand"
 	"bytes"
 	"fmt"
 	"math"
+	"math/rand"
 	"net"
 	"reflect"
 	"sort"
@@ -71,6 +71,9 @@ var scalarIDs = []uint16{cqlspec.TInt, cqlspec.TVarchar, cqlspec.TBigint, cqlspe
 // time, decimal, varint, counter, timeuuid, duration): the byzantine scenario only needs
 // their bytes to reach the decoders.
 var extraScalars = false
+
+// genValueDepth is the nesting depth of the value being generated (root goroutine only).
+var genValueDepth = 0
 
 var extraScalarIDs = []uint16{cqlspec.TDate, cqlspec.TTime, cqlspec.TDecimal, cqlspec.TVarint, cqlspec.TCounter, cqlspec.TTimeUUID, cqlspec.TDuration}
 
@@ -224,8 +227,8 @@ func genValue(tp *kernel.Tape, t wType, proto int) (interface{}, []byte) {
 		} else if tp.Chance(1, 12) {
 			// noise: no codec makes it smaller (encrypted, already compressed data)
 			n := []int{700, 100, 5000, 70000, 513}[tp.Next(5)]
-			if proto < 3 && n > 4096 {
-				n = 4096
+			if proto < 3 && n > 40000 {
+				n = 40000 // collection elements are limited to 64 KiB before protocol 3
 			}
 			r := rand.New(rand.NewSource(int64(tp.Next(1 << 30))))
 			v = make([]byte, n)
@@ -296,6 +299,26 @@ func genValue(tp *kernel.Tape, t wType, proto int) (interface{}, []byte) {
 	case cqlspec.TList, cqlspec.TSet:
 		n := tp.Next(4)
 		et := t.Elems[0]
+		if proto < 3 && t.ID == cqlspec.TList && genValueDepth == 0 && !extraScalars && tp.Chance(1, 30) {
+			// protocol 1 and 2 count elements and their bytes in an unsigned [short]: a list of
+			// more than 32767 elements (repeats of one value; top-level values of scenario wire
+			// only: as an element of another collection it would not fit)
+			n = []int{32768, 33000, 40000}[tp.Next(3)]
+			v, b := genValue(tp, et, proto)
+			if len(b) <= 8 {
+				gt := goTypeOf(et)
+				sl := reflect.MakeSlice(reflect.SliceOf(gt), 0, n)
+				cells := make([]cqlspec.Cell, n)
+				for i := 0; i < n; i++ {
+					sl = reflect.Append(sl, valueOr(v, gt))
+					cells[i] = cqlspec.Cell{Bytes: b}
+				}
+				return sl.Interface(), cqlspec.EncList(proto, cells)
+			}
+			n = 1
+		}
+		genValueDepth++
+		defer func() { genValueDepth-- }()
 		gt := goTypeOf(et)
 		sl := reflect.MakeSlice(reflect.SliceOf(gt), 0, n)
 		var cells []cqlspec.Cell
@@ -315,6 +338,8 @@ func genValue(tp *kernel.Tape, t wType, proto int) (interface{}, []byte) {
 	case cqlspec.TMap:
 		n := tp.Next(4)
 		kt, vt := t.Elems[0], t.Elems[1]
+		genValueDepth++
+		defer func() { genValueDepth-- }()
 		m := reflect.MakeMap(reflect.MapOf(goTypeOf(kt), goTypeOf(vt)))
 		var cells []cqlspec.Cell
 		seen := map[string]bool{}
